@@ -9,6 +9,7 @@ from __future__ import annotations
 
 import itertools
 import random
+import time
 import warnings
 
 from vf.rig import wire as W
@@ -231,10 +232,33 @@ def run_case(case, tier):
                 rng = random.Random(case["seed"])
                 names = ["subscribe", "unsubscribe", "pause_subscription", "resume_subscription", "unsubscribe_from_all",
                          "pause_all_subscriptions", "resume_all_subscriptions", "subscription_context", "paused_subscription_context"] * 3 + \
-                        ["reconnect_clean", "reconnect_lost"]
+                        ["reconnect_clean", "reconnect_lost", "intruder"]
                 trace = []
                 for i in range(case["len"]):
                     name = rng.choice(names)
+                    if name == "intruder":
+                        # somebody else asks for this client's module id and is refused: nothing the client did, nothing
+                        # about its subscriptions may change
+                        trace.append([name, None])
+                        x = rig.client(f"intruder{i}")
+                        mid_ = S.c.module_id
+                        try:
+                            x.send_frame(W.MT_CONNECT_V2, W.p_connect_v2(0, 0, rng.randint(0, 1), mid_, 4243, b""), src_mod=mid_)
+                            x.send_frame(W.MT_CONNECT, W.p_connect(0, 0), src_mod=mid_)
+                        except OSError:
+                            pass
+                        end = time.time() + 5
+                        while time.time() < end and x.eof is None:
+                            time.sleep(0.002)
+                        refused = x.eof is not None
+                        x.close()
+                        if not refused:
+                            o.V.append({"mech": "duplicate_id_not_refused", "detail": f"walk step {i}: a second connection naming the client's id {mid_} was not closed"})
+                        o.bump("intruders_refused")
+                        after = check_agreement(S, univ, o, f"walk step {i} intruder refused (id {mid_})")
+                        if after is None:
+                            break
+                        continue
                     if name.startswith("reconnect"):
                         trace.append([name, None])
                         S.reconnect(lost=(name == "reconnect_lost"))
